@@ -331,9 +331,23 @@ func runCase(c Case) *pt.Failure {
 			if err != nil {
 				return pt.Failf("C08/compressor/"+c.Compress+"/compress-error", "Compress: %v", err)
 			}
+			// a second log is compressed (and a first one expanded) before the first result is used: the
+			// bytes handed out earlier must still be what they were
+			other := append([]byte("another undo log "), c.Data...)
+			z2, err := compressor.CompressorType(c.Compress).GetCompressor().Compress(other)
+			if err != nil {
+				return pt.Failf("C08/compressor/"+c.Compress+"/compress-error", "Compress: %v", err)
+			}
 			back, err := cp.Decompress(z)
 			if err != nil || !bytes.Equal(back, c.Data) {
-				return pt.Failf("C08/compressor/"+c.Compress+"/roundtrip", "Decompress(Compress(%d bytes)) err=%v equal=%v", len(c.Data), err, bytes.Equal(back, c.Data))
+				return pt.Failf("C08/compressor/"+c.Compress+"/roundtrip", "Decompress(Compress(%d bytes)) err=%v equal=%v (another Compress ran in between)", len(c.Data), err, bytes.Equal(back, c.Data))
+			}
+			back2, err := cp.Decompress(z2)
+			if err != nil || !bytes.Equal(back2, other) {
+				return pt.Failf("C08/compressor/"+c.Compress+"/roundtrip-second", "second log: err=%v equal=%v", err, bytes.Equal(back2, other))
+			}
+			if !bytes.Equal(back, c.Data) {
+				return pt.Failf("C08/compressor/"+c.Compress+"/result-aliased", "the first expanded log changed after the second Decompress")
 			}
 			return nil
 		case "parser":
